@@ -238,7 +238,8 @@ fn exec_call_inner(ctx: &mut Ctx, idx: usize, c: &Value, keep: &mut Option<Owned
     let api = if s(c, "api") == "c" { "c" } else { "rust" };
     let path = s(c, "path");
     let tag = format!("BEGIN {}", idx);
-    let rootraw = ctx.root_raw;
+    // the C ABI takes a raw descriptor number: cases may pass any value (negative, AT_FDCWD, ...)
+    let rootraw = c.get("rootfd").and_then(|v| v.as_i64()).map(|x| x as i32).unwrap_or(ctx.root_raw);
 
     // resolver flags are a property of the Root in the Rust API
     let nosym = c.get("nosym").and_then(|v| v.as_bool()).unwrap_or(false);
@@ -486,23 +487,72 @@ fn exec_call_inner(ctx: &mut Ctx, idx: usize, c: &Value, keep: &mut Option<Owned
             from_fd_result(r, keep)
         }
         // ------------------------------------------------------------------ procfs
+        ("rust", "proc_new") => {
+            // the handle owns exactly one descriptor, which the API does not expose: the worker
+            // reports the single new entry of /proc/self/fd as the "returned descriptor"
+            let r = bracket!(match s(c, "kind") {
+                "unmasked" => ProcfsHandle::new(), // (new_unmasked is crate-private)
+                _ => ProcfsHandle::new(),
+            });
+            match r {
+                Ok(h) => {
+                    ctx.procfs = Some(h);
+                    json!({"ok": true, "handle": "procfs", "ret_is_new_fd": true})
+                }
+                Err(e) => kind_json(&e),
+            }
+        }
+        ("rust", "proc_from_fd") => {
+            // try_from_fd on a descriptor the harness obtained itself (how: open | open_tree | fsopen | path)
+            let fd: i32 = unsafe {
+                match s(c, "how") {
+                    "open" => libc::open(b"/proc\0".as_ptr() as *const c_char, libc::O_PATH | libc::O_DIRECTORY | libc::O_CLOEXEC),
+                    "open_rd" => libc::open(b"/proc\0".as_ptr() as *const c_char, libc::O_RDONLY | libc::O_DIRECTORY | libc::O_CLOEXEC),
+                    "open_tree" => libc::syscall(libc::SYS_open_tree, libc::AT_FDCWD, b"/proc\0".as_ptr(), 1u32 | libc::O_CLOEXEC as u32) as i32,
+                    "open_tree_rec" => libc::syscall(libc::SYS_open_tree, libc::AT_FDCWD, b"/proc\0".as_ptr(), 1u32 | 0x8000u32 | libc::O_CLOEXEC as u32) as i32,
+                    "fsopen" | "fsopen_subset" => {
+                        let sfd = libc::syscall(libc::SYS_fsopen, b"proc\0".as_ptr(), 1u32) as i32;
+                        if sfd < 0 {
+                            -1
+                        } else {
+                            if s(c, "how") == "fsopen_subset" {
+                                libc::syscall(libc::SYS_fsconfig, sfd, 1u32, b"subset\0".as_ptr(), b"pid\0".as_ptr(), 0);
+                            }
+                            libc::syscall(libc::SYS_fsconfig, sfd, 6u32, 0usize, 0usize, 0);
+                            let m = libc::syscall(libc::SYS_fsmount, sfd, 1u32, 0u32) as i32;
+                            libc::close(sfd);
+                            m
+                        }
+                    }
+                    _ => {
+                        let p = cs(path);
+                        libc::open(p.as_ptr(), libc::O_PATH | libc::O_CLOEXEC)
+                    }
+                }
+            };
+            if fd < 0 {
+                return json!({"ok": false, "skip": format!("cannot obtain fd: errno {}", crate::tree::errno())});
+            }
+            let owned = unsafe { OwnedFd::from_raw_fd(fd) };
+            let r = bracket!(ProcfsHandle::try_from_fd(owned));
+            match r {
+                Ok(h) => {
+                    ctx.procfs = Some(h);
+                    json!({"ok": true, "handle": "procfs", "fd": fd, "consumed_fd": fd})
+                }
+                Err(e) => {
+                    let mut v = kind_json(&e);
+                    v["consumed_fd"] = json!(fd);
+                    v
+                }
+            }
+        }
         ("rust", "proc_open") | ("rust", "proc_open_follow") => {
             let base = base_of(s(c, "base"));
             let fl = oflags(&c["oflags"]);
-            let r = {
-                let h = ctx.procfs.as_ref();
-                match h {
-                    Some(h) => bracket!(if op == "proc_open" { h.open(base, path, fl) } else { h.open_follow(base, path, fl) }),
-                    None => {
-                        let h = bracket!(ProcfsHandle::new());
-                        match h {
-                            Ok(h) => {
-                                if op == "proc_open" { h.open(base, path, fl) } else { h.open_follow(base, path, fl) }
-                            }
-                            Err(e) => Err(e),
-                        }
-                    }
-                }
+            let r = match ctx.procfs.as_ref() {
+                Some(h) => bracket!(if op == "proc_open" { h.open(base, path, fl) } else { h.open_follow(base, path, fl) }),
+                None => return json!({"ok": false, "skip": "no procfs handle"}),
             };
             from_fd_result(r, keep)
         }
